@@ -84,7 +84,7 @@ ASSUMPTIONS = [
     'debugging aid: with C15_DEBUG=1 in the environment every failing (site, class tag) pair is additionally counted as '
     'a coverage class "dbg ..."; it changes no verdict',
 ]
-REQUIRED_CLASSES = ['number-types', 'op:refused-date', 'ctor:NED', 'ctor:ENU', 'ctor:lat=0', 'ctor:lon=0', 'ctor:place=default', 'ctor:date=None',
+REQUIRED_CLASSES = ['number-types', 'op:refused-date', 'op:other-object', 'ctor:NED', 'ctor:ENU', 'ctor:lat=0', 'ctor:lon=0', 'ctor:place=default', 'ctor:date=None',
                     'ctor:date=day', 'ctor:date=decimal', 'ctor:seam-1e-3',
                     'op:field(date=decimal)', 'op:field(date=day)', 'op:field(date=omitted)',
                     'op:field(date=None) first evaluation after a load', 'op:field(date=None) on used coefficients',
@@ -177,6 +177,11 @@ def _apply(o, ev):
         o.reset_coefficients(_arg(ev[1]))
     elif ev[0] == 'read':
         getattr(o, ev[1])
+    elif ev[0] == 'other':
+        W_ = _lib()
+        other = W_.WMM(date=ev[1], latitude=-40.0, longitude=100.0, height=30.0, frame='ENU' if str(getattr(o, 'frame', 'NED')).upper() == 'NED' else 'NED')
+        other.magnetic_field(65.0, -150.0, 2.0, date=ev[1] + 0.2)
+        o.magnetic_field(ev[2], ev[3], ev[4], date=None)
     elif ev[0] == 'refuse':
         bad = float('nan') if ev[4] == 'nan' else (_REAL_DATE(2010, 6, 1) if ev[4] == 'day:2010-06-01' else ev[4])
         try:
@@ -235,6 +240,8 @@ def mc_ops(ctx, hist):
             ops.append(['field', p[0], p[1], p[2], d])
     ops += [['reset', d] for d in (RESETS_T if ctx.thorough else RESETS)]
     ops += [['read', r] for r in READS]
+    if run < _K(ctx):
+        ops += [['other', d, 10.0, 20.0, 0.0] for d in ((2016.3, 2021.3, 2027.1) if ctx.thorough else (2016.3, 2027.1))]
     ops += [['refuse', 10.0, 20.0, 0.0, bad] for bad in ((2012.5, 'nan', 'abc', 'day:2010-06-01') if ctx.thorough else (2012.5, 'nan'))]
     return ops
 
@@ -368,7 +375,7 @@ def mc_judge(ctx, hist, o, exc, src_id, dst_id):
         ctx.fail = lambda site, k, *a, **kw: (ctx.cls('dbg ' + site[:60] + ' || ' + str(k).split(' | ')[-1]), ctx._dbg(site, k, *a, **kw))[1]
     s = M.replay(hist)
     P = {'ctor': 'WMM(...)', 'field': 'magnetic_field on a used object', 'reset': 'reset_coefficients',
-         'read': 'reading a property', 'refuse': 'magnetic_field with a refused date'}[ev[0]]
+         'read': 'reading a property', 'refuse': 'magnetic_field with a refused date', 'other': 'magnetic_field(date=None) after another WMM object was built and evaluated'}[ev[0]]
     if ev[0] in ('ctor', 'field'):
         ctx.seen(key)
     if src_id is not None and ev[0] != 'read' and dst_id is not None and dst_id == src_id:
@@ -403,7 +410,9 @@ def mc_judge(ctx, hist, o, exc, src_id, dst_id):
     # no operation of the menu may raise
     if not ctx.expect(exc is None, f'{P}: does not raise', key, exc, 'no exception'):
         return
-    if ev[0] in ('ctor', 'field'):
+    if ev[0] in ('ctor', 'field', 'other'):
+        if ev[0] == 'other':
+            ctx.cls('op:other-object')
         _judge_answer(ctx, P, key, o, s.query)
     elif ev[0] == 'refuse':
         ctx.cls('op:refused-date')
